@@ -235,19 +235,13 @@ class Attribute:
         characteristics += '0'
 
         # count
+        # (written whenever it differs from the default of 1 - including 0 for an empty list of values)
         count = self.count
-        if count and count != 1:
+        if count is not None and count != 1:
             bts += write_struct_uvari(count)
             characteristics += '1'
         else:
-            if self._value is not None:
-                if count is not None and count > 1:
-                    bts += write_struct_uvari(count)
-                    characteristics += '1'
-                else:
-                    characteristics += '0'
-            else:
-                characteristics += '0'
+            characteristics += '0'
 
         # representation code
         if self.representation_code:
